@@ -121,7 +121,13 @@ impl Env {
   pub(crate) fn status(&mut self) -> Result<(), i32> {
     use structopt::clap::ErrorKind;
 
-    if let Err(error) = self.run() {
+    // Bytes still buffered in standard output must reach it before success is
+    // reported; a failure to deliver them is a failure of the command.
+    let result = self
+      .run()
+      .and_then(|()| self.out.flush().context(error::Stdout));
+
+    if let Err(error) = result {
       if let Error::Clap { source } = error {
         if source.use_stderr() {
           write!(&mut self.err, "{source}").ok();
